@@ -380,6 +380,9 @@ ContCases == <<
   CC("geometric_reinforce", 1, <<1>>, <<-1>>, <<0>>, <<0>>, M1(1), M1(0), 2, 1, 8),
   \* two consecutive tail-call sites, one component each: the inferred noises must be independent
   CC("two_normal_reparam", 2, <<2, 1>>, <<1, -2>>, <<1, 0>>, <<2, -1>>, << <<1, 0>>, <<0, 2>> >>, << <<1, 0>>, <<0, -1>> >>, 0, 0, 1),
+  \* batched mv_normal_diag_reparam: loc and scale_diag of shape (2, 2), both rows with these parameters;
+  \* outputs flattened row-major; each row obeys the pathwise law and the rows have independent noise
+  CC("mv_diag_batched", 2, <<1, 2>>, <<1, 0>>, <<0, 1>>, <<1, 2>>, << <<1, 0>>, <<0, 2>> >>, << <<1, 0>>, <<0, -1>> >>, 0, 0, 1),
   CC("uniform_normal_reparam", 2, <<2, 1>>, <<1, -2>>, <<0, 0>>, <<0, -1>>, << <<1, 0>>, <<0, 2>> >>, << <<0, 0>>, <<0, -1>> >>, 0, 0, 1)
 >>
 
